@@ -250,3 +250,75 @@ def strip_noise(tree):
                         n -= 1
                     setattr(node, field, kept)
     return n
+
+
+# ---------------------------------------------------------------------------------------------------------------------
+# explaining variables introduced since the rules were confirmed
+# ---------------------------------------------------------------------------------------------------------------------
+MUTATORS = ("append", "extend", "insert", "pop", "remove", "update", "add", "clear", "setdefault", "sort", "reverse", "rename_units", "add_bit", "add_vertex", "add_edge", "add_node")
+
+
+def _pure_looking(e):
+    return not any(isinstance(c, ast.Call) and isinstance(c.func, ast.Attribute) and c.func.attr in MUTATORS for c in ast.walk(e)) and \
+        not any(isinstance(c, (ast.Yield, ast.YieldFrom, ast.Await, ast.NamedExpr)) for c in ast.walk(e))
+
+
+class _Subst(ast.NodeTransformer):
+    def __init__(self, name, value):
+        self.name, self.value, self.n = name, value, 0
+
+    def visit_Name(self, n):
+        if n.id == self.name and isinstance(n.ctx, ast.Load):
+            self.n += 1
+            return self.value
+        return n
+
+    def visit_Lambda(self, n):
+        return n            # a use inside a closure is evaluated later: never inlined into
+
+    visit_FunctionDef = visit_ListComp = visit_GeneratorExp = visit_SetComp = visit_DictComp = visit_Lambda
+
+
+def inline_new_temps(tree, expected):
+    """a local that the recorded naming does not know, assigned once (`t = E`, E free of mutating calls) and read exactly once, in the
+    statement that follows, is an explaining variable: it is substituted back (in place).  Returns the names removed."""
+    removed = []
+    for key, fn in scopes(tree):
+        exp = expected.get(key)
+        if exp is None:
+            continue
+        new = [b for b in bindings(fn) if b not in exp]
+        if not new:
+            continue
+        for blk_owner in [fn] + [n for n in own_nodes(fn) if not isinstance(n, SCOPES)]:
+            for field in ("body", "orelse", "finalbody"):
+                body = getattr(blk_owner, field, None)
+                if not (isinstance(body, list) and body and all(isinstance(s, ast.stmt) for s in body)):
+                    continue
+                i = 0
+                while i + 1 < len(body):
+                    st = body[i]
+                    if isinstance(st, ast.Assign) and len(st.targets) == 1 and isinstance(st.targets[0], ast.Name) and st.targets[0].id in new and _pure_looking(st.value):
+                        t = st.targets[0].id
+                        own = list(own_nodes(fn))
+                        stores = sum(1 for n in own if isinstance(n, ast.Name) and n.id == t and isinstance(n.ctx, (ast.Store, ast.Del)))
+                        loads = sum(1 for n in own if isinstance(n, ast.Name) and n.id == t and isinstance(n.ctx, ast.Load))
+                        # read by a nested scope (closure): not an explaining variable
+                        if any(t in free_names(n) for n in own if isinstance(n, SCOPES)):
+                            loads += 1
+                        nxt = body[i + 1]
+                        if stores == 1 and loads == 1 and not isinstance(nxt, (ast.For, ast.While, ast.FunctionDef, ast.ClassDef, ast.With, ast.Try)):
+                            sub = _Subst(t, st.value)
+                            if isinstance(nxt, ast.If):
+                                nxt.test = sub.visit(nxt.test)
+                                done = sub.n == 1
+                            else:
+                                new_nxt = sub.visit(nxt)
+                                done = sub.n == 1
+                                body[i + 1] = new_nxt
+                            if done:
+                                del body[i]
+                                removed.append("%s:%s" % (key, t))
+                                continue
+                    i += 1
+    return removed
